@@ -74,6 +74,8 @@ type FuncSpec struct {
 	SkipStores bool   `json:"skipstores"` // (implied by retstore) drop statements that only store to memory the translation does not model (non-identifier targets), call a function for its effect, or branch over such statements
 	InIf       string `json:"inif"`       // translate the body of the first `if` statement (or `for cond {}` loop: one iteration) whose condition has this source text as if it were the function body
 	RetCond    bool   `json:"retcond"`    // with inif: return that condition itself (ret must be bool)
+	At         string `json:"at"`         // start at the first statement (source order, any nesting depth, case clauses included) whose source text starts with this prefix; the rest of its statement list follows. Variables written before being declared on this path must be parameters
+	StopAt     string `json:"stopat"`     // with retvar: on reaching a statement whose source text starts with this prefix, return the variable's current value (instead of returning at an assignment to it)
 }
 
 type ParamSpec struct {
